@@ -725,7 +725,8 @@ impl Song {
         // new track ?
         while self.tracks.len() <= self.cur_track {
             // println!("{:?}", v);
-            let trk = Track::new(self.timebase, no as isize - 1);
+            // every track that comes into existence gets its own default channel
+            let trk = Track::new(self.timebase, self.tracks.len() as isize - 1);
             self.tracks.push(trk);
         }
 
